@@ -360,16 +360,31 @@ func runC20(w *World) {
 		serveInv, serveAt = w.Seq(), w.Now()
 		e.Serve("10.0.0.5:179", "[fd00::5]:179")
 		if lifecycle == 3 {
-			w.Sleep(time.Duration(w.Range(1, 3000, "closems")) * time.Millisecond)
+			if w.Chance(1, 2, "close-in-burst") {
+				// in the thick of the clients' operations, not at a timer wake-up
+				for i, n := 0, w.Draw(80, "closeyield"); i < n; i++ {
+					w.Yield("c20.pre-close")
+				}
+				w.Probe("close-in-burst")
+			} else {
+				w.Sleep(time.Duration(w.Range(1, 3000, "closems")) * time.Millisecond)
+			}
 			closeInv = w.Seq()
 			c := e.Close()
 			w.WaitUntil("c20.close", 10*time.Second, c.Done)
 		}
 	})
-	w.WaitUntil("c20.clients", 2*time.Minute, func() bool { return busy == 0 })
+	if !w.WaitUntil("c20.clients", 2*time.Minute, func() bool { return busy == 0 }) {
+		w.Violate("C20/operation-never-returned", "%d client task(s) are still inside a registry operation after 2 minutes of virtual time; alive: %s", busy, w.aliveSummary())
+		return
+	}
 	w.Sleep(5 * time.Second)
 	w.Quiesce()
 	if w.Failed() {
+		return
+	}
+	if lifecycle == 3 && e.CloseC != nil && !w.WaitUntil("c20.close.late", 30*time.Second, e.CloseC.Done) {
+		w.Violate("C20/close-never-returned", "Close, issued while registry operations were in progress, has not returned after %v; alive: %s", w.Now(), w.aliveSummary())
 		return
 	}
 	w.NonTrivial = data.overlaps >= 1
